@@ -33,7 +33,7 @@ def budgets(tier):
 
 
 def generate(rng, tier, idx):
-    w = gen_world(rng, n_models=(1, 8), n_wav=(5, 12), n_filters=(2, 4), n_ap=(2, 3), n_par=(1, 4), allow_zero_band=True)
+    w = gen_world(rng, n_models=(1, 8), n_wav=(5, 12), n_filters=(1, 4), n_ap=(2, 3), n_par=(1, 4), allow_zero_band=True)
     w['ext_n'] = rng.choice([3, 8])
     nf = len(w['filters'])
     sc = {'world': w, 'av_range': [0.0, round(rng.uniform(2, 30), 2)], 'drange': [1.0, rng.choice([1.0, 2.0])],
